@@ -62,7 +62,23 @@ func (c *c07Env) arrive(t *txInfo, src string) {
 }
 
 func TestVerif_C07(t *testing.T) {
-	rep := verifkit.NewReport("C07")
+	c07Body(verifkit.NewReport("C07"), verifkit.N(48, 800), func(sig string) (string, bool) { return sig, true })
+}
+
+// C05 with the real delay checker running: "neither is subsequently reported safe".
+func TestVerif_C05Delay(t *testing.T) {
+	c07Body(verifkit.NewReport("C05"), verifkit.N(32, 500), func(sig string) (string, bool) {
+		switch {
+		case len(sig) >= 21 && sig[:21] == "C07/safe-after-unsafe":
+			return "C05/delay-checker/safe-after-unsafe" + sig[21:], true
+		case len(sig) >= 19 && sig[:19] == "C07/safe-and-unsafe":
+			return "C05/delay-checker/safe-and-unsafe" + sig[19:], true
+		}
+		return "", false
+	})
+}
+
+func c07Body(rep *verifkit.Report, n int, mapSig func(string) (string, bool)) {
 	rep.Rule = "each scenario: a synced node with SafeTxDelay=300 ms and the real checkTxDelays goroutine; 3-6 transactions over 4 outpoints arrive from generated sources (untrusted first, trusted later, trusted only, local), conflicting arrivals are placed before the expiry, inside the checker's fetch->save window (hook node.safe.fetched holds it open for 40 ms and signals the harness) and after it; confirmations race the checker; clean restarts before/after the safe report. Per-txid notification trajectories of both handlers are judged (never safe&unsafe, cancelled=>unsafe, no safe after unsafe, unconfirmed safe only if the trusted peer had sent inv/tx, not before first_send+delay, at most once; bounded liveness: within 20 checker iterations counted at hook node.safe.iteration). Non-trivial = a conflict or a restart or an untrusted-first arrival; distinct by step-shape string"
 	rep.Assumptions = []string{"age is measured from the harness' clock just before the first send, which over-approximates the node's own first-seen time: measured < delay is a definite violation", "liveness is counted in checker iterations (hook), the wall-clock watchdog only yields inconclusive", "transactions whose life spans a restart carry no liveness obligation"}
 	defer rep.Write()
@@ -84,7 +100,6 @@ func TestVerif_C07(t *testing.T) {
 	})
 	defer verifhook.Set("node.safe.fetched", nil)
 
-	n := verifkit.N(48, 800)
 	for ci := 0; ci < n; ci++ {
 		if !verifkit.Mine(ci) {
 			continue
@@ -279,9 +294,14 @@ func TestVerif_C07(t *testing.T) {
 				rep.Event("other_property_findings:"+f.sig, 1)
 				continue
 			}
+			sig, ok := mapSig(f.sig)
+			if !ok {
+				rep.Event("other_property_findings:"+f.sig, 1)
+				continue
+			}
 			wit := w.witness()
 			wit["shape"] = fp
-			rep.Finding(ci, f.sig, f.detail+" | "+fp, wit)
+			rep.Finding(ci, sig, f.detail+" | "+fp, wit)
 		}
 		rep.Event("scenarios", 1)
 		rep.Event("transactions", int64(len(w.txs)))
